@@ -1,6 +1,7 @@
 from common import COMMON_ASSUME
 
 PROP = dict(
+    technique='model-based stateful property testing: operation histories against a 65536-bit reference set; libFuzzer in the thorough tier',
     harness=['c08_bitmap.c'],
     level_text=('model-based generated-history search: 4 bitmap objects, each '
                 'paired with a 65536-bit reference set, driven by 1..200 '
